@@ -69,7 +69,8 @@ type session struct {
 	dir   string
 	store db.DB
 	cdb   *chain.ChainDB
-	ops   []string // replay: the op lines of this session
+	wal   *raftv2.WalDB // the real WalDB, kept alive from one restart to the next (as raftServer does)
+	ops   []string      // replay: the op lines of this session
 
 	// reference (the property's view)
 	log    map[uint64]*refEntry
@@ -112,6 +113,7 @@ func (s *session) open() {
 	if s.cdb, err = chain.VerifRaftChainDBOn(s.store); err != nil {
 		panic(err)
 	}
+	s.wal = raftv2.NewWalDB(s.cdb)
 }
 
 func (s *session) start() {
@@ -157,6 +159,7 @@ func (s *session) restart() {
 		out = "panic"
 	} else {
 		s.cdb = cdb
+		s.wal = raftv2.NewWalDB(cdb) // a restarted node builds a new WalDB: nothing cached in memory survives
 	}
 	s.op("restart", out, true)
 }
@@ -341,7 +344,7 @@ func (s *session) readall() {
 		snap = &raftpb.Snapshot{Metadata: raftpb.SnapshotMetadata{Index: idx, Term: term}}
 		arg = fmt.Sprintf("%d,%d", idx, term)
 	}
-	w := raftv2.NewWalDB(s.cdb)
+	w := s.wal
 	var (
 		id   *consensus.RaftIdentity
 		st   *raftpb.HardState
@@ -620,6 +623,11 @@ func (s *session) save() {
 	if s.rng.Chance(2, 3) {
 		state = raftpb.HardState{Term: s.term, Vote: uint64(s.rng.Intn(4)), Commit: uint64(s.rng.Intn(int(first) + 1))}
 	}
+	s.saveWith(state, b, kind)
+}
+
+// saveWith: one SaveEntry call on the session's live WalDB object (b may be empty: hard state only)
+func (s *session) saveWith(state raftpb.HardState, b []*genEntry, kind string) {
 	var toks []string
 	var raws []raftpb.Entry
 	for _, g := range b {
@@ -636,12 +644,13 @@ func (s *session) save() {
 			s.run.Count("entry:confchange")
 		}
 	}
-	w := raftv2.NewWalDB(s.cdb)
-	out := res(func() error { return w.SaveEntry(state, raws) })
-	s.op(fmt.Sprintf("save %d,%d,%d %s", state.Term, state.Vote, state.Commit, strings.Join(toks, " ")), out, out == "ok")
+	out := res(func() error { return s.wal.SaveEntry(state, raws) })
+	s.op(strings.TrimSpace(fmt.Sprintf("save %d,%d,%d %s", state.Term, state.Vote, state.Commit, strings.Join(toks, " "))), out, out == "ok")
 	s.run.Count("batch:" + kind)
 	if out == "ok" {
-		s.applyRef(b, true)
+		if len(b) > 0 {
+			s.applyRef(b, true)
+		}
 		if state.Term != 0 || state.Vote != 0 || state.Commit != 0 {
 			st := state
 			s.hs = &st
@@ -649,6 +658,53 @@ func (s *session) save() {
 	} else {
 		s.fail("SaveEntry of a well-formed batch ended with " + out)
 	}
+}
+
+// burst: several SaveEntry calls on the same live WalDB with no restart in between (what a running
+// node does between two Ready rounds); each hard state differs from the previous one handed to
+// SaveEntry in exactly one of Term / Vote / Commit; entries are absent, or a batch. The restart and
+// the read-back follow the burst: the hard state read back must be the last one handed over.
+func (s *session) burst() {
+	prev := raftpb.HardState{Term: s.term, Vote: 0, Commit: uint64(s.rng.Intn(int(s.last) + 1))}
+	if s.hs != nil && s.rng.Chance(1, 2) && (s.hs.Term != 0 || s.hs.Vote != 0 || s.hs.Commit != 0) {
+		prev = *s.hs
+	} else {
+		s.saveWith(prev, nil, "hardstate-only")
+		s.run.Count("burst:first-state-saved")
+	}
+	k := 1 + s.rng.Intn(4)
+	for i := 0; i < k; i++ {
+		next := prev
+		switch s.rng.Intn(4) {
+		case 0:
+			next.Term++
+			if next.Term > s.term {
+				s.term = next.Term
+			}
+			s.run.Count("burst:only-term-differs")
+		case 1, 2:
+			next.Vote = uint64(1 + (int(prev.Vote)+s.rng.Intn(3))%4)
+			if next.Vote == prev.Vote {
+				next.Vote++
+			}
+			s.run.Count("burst:only-vote-differs")
+		default:
+			next.Commit++
+			s.run.Count("burst:only-commit-differs")
+		}
+		var b []*genEntry
+		kind := "hardstate-only"
+		if s.rng.Chance(1, 3) {
+			first, n, kd := s.shape()
+			b, kind = s.genBatch(first, n), kd
+		}
+		s.saveWith(next, b, kind)
+		prev = next
+		if s.rng.Chance(1, 5) {
+			s.saveWith(raftpb.HardState{}, nil, "empty-hardstate-no-entries") // empty Ready: nothing to persist
+		}
+	}
+	s.run.Count("op:burst")
 }
 
 // direct ChainDB.WriteRaftEntry; wellFormed=false produces the malformed stream
@@ -735,8 +791,10 @@ func (s *session) write(wellFormed bool) {
 func (s *session) stepOnce(malformed bool) {
 	r := s.rng.Intn(100)
 	switch {
-	case r < 50:
+	case r < 34:
 		s.save()
+	case r < 50:
+		s.burst()
 	case r < 62:
 		s.write(!malformed || s.rng.Chance(1, 3))
 	case r < 68:
@@ -860,7 +918,7 @@ func walSessions(run *vh.Run) {
 		d, _ := raftv2.VerifMarshalBlock(x.blk.b)
 		x.raw = raftpb.Entry{Term: x.term, Index: x.index, Data: d}
 	}
-	w := raftv2.NewWalDB(s.cdb)
+	w := s.wal
 	out := res(func() error { return w.SaveEntry(raftpb.HardState{}, []raftpb.Entry{g[0].raw, g[1].raw}) })
 	s.op(fmt.Sprintf("save 0,0,0 b,1,1,%s b,1,2,%s", b1.tok(), b2.tok()), out, true)
 	s.applyRef(g, true)
@@ -1257,7 +1315,7 @@ func main() {
 		zerolog.SetGlobalLevel(zerolog.Disabled)
 	}
 	run := vh.Start("c16", "wal: sessions on the real ChainDB (memorydb) with a restart (fresh ChainDB on the same store; every 4th time close + re-open from file) after "+
-		"every operation: SaveEntry/WriteRaftEntry batches that append or overwrite a suffix (shorter, equal, longer), mixed block/empty/conf-change entries, hard state, "+
+		"every operation: SaveEntry (on one live WalDB per process lifetime; bursts of several saves without a restart whose hard states differ in exactly one of term/vote/commit, with and without entries)/WriteRaftEntry batches that append or overwrite a suffix (shorter, equal, longer), mixed block/empty/conf-change entries, hard state, "+
 		"snapshot, identity, best block, ClearWAL, ResetWAL, an ill-formed stream (gaps, descending, empty batch, nil block, unknown type codes) in every 6th session; "+
 		"after each op every getter is read back for indices 0..max+2 and compared with a reference map log; ReadAll and GetRaftEntryOfBlock sampled. "+
 		"mem: validateChangeMembership + isEnableChangeMembership on real Clusters: every composition of 0..5 applied and 0..2 removed members x a request space "+
